@@ -212,6 +212,22 @@ def harness(ctx):
                              obs=obs.tolist())
                 sig.append(tuple(got))
 
+    # ---- site C2: conditional means / counts select the members with np.where(interval.within(x)) -----------------
+    if form in ("arraymixed",) and evs:
+        cm = verif.metric.Conditional(func=np.sum)
+        xm = verif.metric.XConditional(func=len)
+        xs = np.array([p[1] for p in positions])
+        for (t, u), iv in zip(evs, intervals):
+            exp_n = sum(1 for xv in xs.tolist() if ref_event(bin_type, xv, t, u) is True)
+            for label, mm, arg2 in (("conditional", cm, np.ones(len(xs))), ("xconditional", xm, np.ones(len(xs)))):
+                kind, res, site, _ = H.quiet_call(mm.compute_from_obs_fcst, xs.copy(), arg2, iv)
+                if kind != "ok":
+                    ctx.fail("%s:%s" % (label, site or kind), bin_type=bin_type)
+                    continue
+                got_n = 0 if (isinstance(res, float) and math.isnan(res)) else int(res)
+                if got_n != exp_n:
+                    ctx.fail("%s:members:%s" % (label, bin_type), expected=exp_n, actual=got_n, t=t, u=u, x=xs.tolist())
+
     # ---- site D: event probability from the CDF ---------------------------------------------
     if form == "array1" and evs and not (isinstance(x, float) and math.isnan(x)):
         sample = [v for v in emb]       # the 7 finite representatives: an empirical distribution
